@@ -733,6 +733,8 @@ func nativeReplay(repo, scratch string, ov map[string][]byte, v *Violation) (boo
 		return strings.Contains(s, "VH-PANIC"), s
 	case "unwind", "steplimit", "deadlock":
 		return strings.Contains(s, "VH-HANG") || strings.Contains(s, "VH-SLOW") || strings.Contains(s, "test timed out") || strings.Contains(s, "VH-PANIC"), s
+	case "stackdepth":
+		return strings.Contains(s, "stack overflow") || strings.Contains(s, "goroutine stack exceeds") || strings.Contains(s, "VH-PANIC") || strings.Contains(s, "VH-HANG"), s
 	case "bigalloc", "splitcap":
 		return strings.Contains(s, "VH-BIGALLOC") || strings.Contains(s, "out of memory") || strings.Contains(s, "VH-PANIC") || strings.Contains(s, "cannot allocate"), s
 	}
